@@ -5,6 +5,10 @@
 
 package traversalrecord
 
+//@ -- these contracts are seen by the packs of C01, C02 and C06 only; in every other pack calls into this package stay
+//@ -- abstracted (listed in that pack's trusted base), exactly as before this file existed
+//@ onlyfor C01 C02 C06
+
 //@ typedrefs
 
 //@ -- shape of the record tree, stated edge by edge (so shared or repeated nodes need no special case):
